@@ -96,7 +96,6 @@ func New(tr drpc.Transport) *Manager {
 func NewWithOptions(tr drpc.Transport, opts Options) *Manager {
 	m := &Manager{
 		tr:   tr,
-		wr:   drpcwire.NewWriter(tr, opts.WriterBufferSize),
 		rd:   drpcwire.NewReaderWithOptions(tr, opts.Reader),
 		opts: opts,
 
@@ -104,6 +103,9 @@ func NewWithOptions(tr drpc.Transport, opts Options) *Manager {
 		sfin:    make(chan struct{}, 1),
 		streams: make(chan streamInfo),
 	}
+
+	// all streams write to the transport through this writer.
+	m.wr = drpcwire.NewWriter(transportWriter{m}, opts.WriterBufferSize)
 
 	// initialize the stream buffer
 	m.sbuf.init()
@@ -123,6 +125,22 @@ func NewWithOptions(tr drpc.Transport, opts Options) *Manager {
 	go m.manageStreams()
 
 	return m
+}
+
+// transportWriter is the io.Writer underneath the manager's drpcwire.Writer. A
+// failed write leaves the outgoing frame stream in an unknown state: part of a
+// frame may already be on the wire and the frames buffered with it are lost. If
+// anything were written after that, the peer would parse it at the wrong offset
+// and could deliver corrupted messages, or wait forever for a call it never
+// saw. So, like a failed read, a failed write terminates the manager.
+type transportWriter struct{ m *Manager }
+
+func (w transportWriter) Write(p []byte) (n int, err error) {
+	n, err = w.m.tr.Write(p)
+	if err != nil {
+		w.m.terminate(managerClosed.Wrap(err))
+	}
+	return n, err
 }
 
 // String returns a string representation of the manager.
